@@ -566,7 +566,7 @@ def past_calls(x):
 # MANIFEST-BEGIN
 MANIFEST = {
     'technique': 'differential monitor: analytic Jacobian function vs 6th-order central differences of the compiled vector field and of the independent reference RHS; history Jacobians vs differences w.r.t. the hand-made history output',
-    'level_text': 'For generated scalar ODE and DDE models the matrix returned by get_jacobian_func is compared entry by entry (2e-6) at random states with central differences of the function from get_run_func of the same spec (same state ordering required) and of the independent reference RHS; for DDEs each returned history matrix must equal the difference quotient w.r.t. y(t - tau) for one distinct delay (perturbing single components of a hand-made history), which detects entries written to the wrong column; sparse=True is compared with dense. The auto-07p DFDU/DFDP blocks are checked on exports with up to 26 parameters (machinery of C18); whole-number delays are written as x(t-10). Models may contain maxi / mini terms; probe points at which an intermediate quantity of the model exceeds 1e60 are discarded (inf*0 in any evaluation of the chain rule). An inputs family lets an extrinsic input multiply a state variable, under adaptive solvers (J at times between samples) and under euler / heun (J at integer step counters, called with the returned arguments); probe family: a delayed edge under a fixed-step solver whose delayed value multiplies a state variable (recorded finding). A symbolic_power family uses exponents that are parameters (x^a) and probes the Jacobian at the zero of the base. Held on observed models only.',
+    'level_text': 'For generated scalar ODE and DDE models the matrix returned by get_jacobian_func is compared entry by entry (2e-6) at random states with central differences of the function from get_run_func of the same spec (same state ordering required) and of the independent reference RHS; for DDEs each returned history matrix must equal the difference quotient w.r.t. y(t - tau) for one distinct delay (perturbing single components of a hand-made history), which detects entries written to the wrong column; sparse=True is compared with dense. The auto-07p DFDU/DFDP blocks are checked on exports with up to 26 parameters (machinery of C18); whole-number delays are written as x(t-10). Models may contain maxi / mini terms; probe points at which an intermediate quantity of the model exceeds 1e60 are discarded (inf*0 in any evaluation of the chain rule). An inputs family lets an extrinsic input multiply a state variable, under adaptive solvers (J at times between samples) and under euler / heun (J at integer step counters, called with the returned arguments); probe family: a delayed edge under a fixed-step solver whose delayed value multiplies a state variable (recorded finding). A symbolic_power family uses exponents that are parameters (x^a) and probes the Jacobian at the zero of the base. Models may contain sign() terms (derivative 0, the entry must keep its other terms). Held on observed models only.',
     'level_note': 'Trusted: finite differences (points where steps h and 2h disagree are discarded), vp/ref.py. auto-07p DFDU/DFDP blocks are covered under C18.',
 }
 # MANIFEST-END
